@@ -13,15 +13,24 @@ def _kernel_units(mode):
     return out
 
 
+def _observer_units(mode):
+    out = []
+    for cls in ('DynGraph', 'DynDiGraph'):
+        out.append(('contracts.queries', 'PresenceTest', (cls,), {'mode': mode}))
+        for t in ('int', 'none'):
+            out.append(('contracts.queries', 'HasInteraction', (cls,), {'mode': mode, 't': t}))
+    return out
+
+
 # property id -> list of (module, factory, args, variant)
 PROOF_UNITS = {
-    'C01': _kernel_units('removal'),
+    'C01': _kernel_units('removal') + _observer_units('removal'),
     'C03': _kernel_units('removal'),
     'C04': _kernel_units('removal'),
     'C05': _kernel_units('removal') + [('contracts.kernel', 'AddInteraction', (cls,), {'mode': 'removal', 't': 'int', 'e': e, 'inv': 'strong'})
                                        for cls in ('DynGraph', 'DynDiGraph') for e in ('none', 'int')],
     'C07': _kernel_units('removal') + _kernel_units('accum'),
-    'C08': _kernel_units('accum'),
+    'C08': _kernel_units('accum') + _observer_units('accum'),
 }
 
 # property id -> list of bounded part names (functions in bounded/parts.py)
